@@ -34,6 +34,8 @@ ENGINES = [
      "kind_free_text": "real expansion of corpus enums compiled by rustc and executed natively against a declaration-derived oracle (bounded; supplies the emission seam and replay inputs)"},
     {"name": "layer-S", "path": "lib/layer_s.py", "serves_properties": ["C06", "C07", "C08", "C09", "C10", "C15", "C16", "C17", "C18", "C19"],
      "kind_free_text": "structural obligations on the real expansion AST (vx) and finite catalogues decided by rustc"},
+    {"name": "layer-K", "path": "lib/layer_k.py", "serves_properties": ["C01", "C02", "C03", "C05", "C06", "C07"],
+     "kind_free_text": "Kani on the unmodified expansion of small corpus enums: full input domain per enum, loops fully unwound, built-in UB checks (invalid enum value, OOB, overflow)"},
     {"name": "layer-R", "path": "lib/layer_r.py", "serves_properties": ["C06", "C07", "C09", "C10"],
      "kind_free_text": "Kani on the real Features::resolve (#[path]-included sources), fully symbolic configuration, loop-free => complete"},
     {"name": "layer-G", "path": "lib/layer_g.py", "serves_properties": ["C01", "C03", "C05", "C07", "C17", "C18"],
@@ -44,13 +46,13 @@ PROPS = {
     "C01": {
         "level": "proof",
         "claim": "Verus proves the real try_from/TryFrom/into/Into bodies against the property's own statement for every enum of each shape and repr (unbounded over enums and arguments); the emission of the tables those proofs assume is checked per corpus instance (bounded, labelled so)",
-        "layers": ["T", "G", "I"],
+        "layers": ["T", "G", "K", "I"],
         "explanation": "try_from/TryFrom/into/Into bodies taken from the real expansion are verified by Verus against `res == Some(E(n)) iff n is a declared discriminant` for an arbitrary enum of each shape and each of the 12 reprs; round-trip corollaries are verified callers; the table/constant emission is checked on corpus instances over the full repr domain (8/16-bit) or boundary+sampled values (wider).",
     },
     "C03": {
         "level": "proof",
         "claim": 'Verus proves table-mode as_str and the Display/Debug/IntoStr forwarders for every enum, shape and repr incl. the index arithmetic; match-mode arms are per-enum data checked exhaustively per corpus instance (bounded)',
-        "layers": ["T", "G", "I"],
+        "layers": ["T", "G", "K", "I"],
         "explanation": "table-mode as_str (both shapes) is verified to return names()[rank(self)] including the wrapping_sub/unsigned-cast index arithmetic for every repr; Display/Debug/IntoStr are verified to pass exactly that string on. match-mode arms and the __NAME table contents are per-enum data and are checked exhaustively over variants on corpus instances (bounded over enums).",
     },
     "C04": {
@@ -62,20 +64,20 @@ PROPS = {
     "C05": {
         "level": "proof",
         "claim": 'Verus proves next/next_back (both shapes) return the least greater / greatest smaller variant and None exactly at MAX/MIN for arbitrary run tables incl. type-limit wrap; MIN/MAX emission per corpus instance (bounded)',
-        "layers": ["T", "G", "I"],
+        "layers": ["T", "G", "K", "I"],
         "explanation": "next/next_back bodies (gapless and with holes) verified against `least variant greater than self / None iff self is the maximum` plus rank(next) == rank+1, for arbitrary run tables including runs touching the type limits; MIN/MAX emission checked on instances.",
     },
     "C02": {
         "level": "proof",
         "claim": 'every unsafe site of the generated code (transmute, unwrap_unchecked, assume_init) and every index/arithmetic step is a discharged Verus precondition for an arbitrary enum; an unsafe block without a verified body makes the check undecided',
-        "layers": ["T", "I", "U"],
+        "layers": ["T", "K", "I", "U"],
         "explanation": "C02 is the set of preconditions generated while proving the other properties: every transmute (rule R1: `requires is_variant`), every unwrap_unchecked (`requires is_some`), every MaybeUninit::assume_init (`requires initialised`, with write modelled by its vstd ghost state), every index/slice bound and every +1/-1/len arithmetic step in the real generated bodies is a Verus obligation, for an arbitrary enum of each shape and repr; the next_and_back iterator's representation invariant carries the argument over any history. Guard: every function with an unsafe block in every corpus expansion must be token-identical to a verified body. Panics and invalid values are also looked for natively on corpus instances (bounded).",
         "assumptions": ["uninitialised reads are decided by layer T only (Kani's uninit instrumentation ICEs on this code)"],
     },
     "C06": {
         "level": "proof",
         "claim": 'representation-invariant proof for the next_and_back iterator (holds after any history) and verified constructor + wrapper contracts for the std-backed modes; std iterators are trusted by stated contracts; histories on instances are a bounded complement',
-        "layers": ["T", "R", "I", "F"],
+        "layers": ["T", "R", "K", "I", "F"],
         "explanation": "next_and_back mode: data-structure proof — iter() establishes view == all variants ascending, next/next_back/size_hint/len are verified to pop the front/back of the abstract view and preserve the representation invariant, so the claim holds after any finite history and fusedness is `len == 0 ==> None, unchanged`. range/table/table_inline modes: the constructor is verified to build the std iterator over exactly the ascending variants (transmute closure precondition, __ENUM well-formedness) and each wrapper method is verified against the same pop-front/pop-back/nth/last/len contract given the assumed contract of the std iterator; fold/rfold are checked structurally to forward verbatim. Defaults of Iterator (collect, count, rev, ...) are std's. Instances are run natively against a VecDeque model over designed + seeded histories (bounded).",
         "assumptions": ["std's Copied<slice::Iter>, Map<RangeInclusive>, array::IntoIter are correct double-ended exact-size fused iterators over their source (contracts stated in contracts/shims.rs.tmpl)",
                         "Iterator/DoubleEndedIterator default methods are correct for any conforming next/next_back/size_hint"],
@@ -83,7 +85,7 @@ PROPS = {
     "C07": {
         "level": "proof",
         "claim": "Verus proves all five uniform range() bodies against `view == variants between a and b, empty if a > b, no panic` for every enum, shape and repr; the iterator behaviour afterwards is C06's",
-        "layers": ["T", "G", "R", "I", "F"],
+        "layers": ["T", "G", "R", "K", "I", "F"],
         "explanation": "all five uniform range() bodies (gapless x {range, next_and_back, table}, holes x {next_and_back, table}) verified: result view == variants with rank in [rank(a), rank(b)] when a <= b, empty otherwise, no panic (slice bounds are Verus obligations), both MaybeUninit indices initialised on every path, index arithmetic == rank for every repr; the result is the same iterator struct as iter(), so C06's invariant/wrapper contracts carry it through any history. Instances: all ordered pairs for small enums, designed + seeded pairs otherwise, with histories (bounded).",
         "assumptions": ["as C06"],
     },
@@ -203,6 +205,11 @@ def collect(pid, tier, seed):
         r_ = driver.artifacts.get_i(tier, seed)
         n_ok = sum(1 for k, v in r_["modules"].items() if v.get("done"))
         obs.append(driver.Ob("I/probes-compiled", "ok" if n_ok else "undecided", "rustc", sample={"modules_with_probes_compiled": n_ok}))
+    if "K" in p["layers"]:
+        o, m = driver.collect_K(pid, tier)
+        m["_layer"] = "K (kani on the unmodified expansion of small enums, complete per enum)"
+        obs += o
+        metas.append(m)
     if "R" in p["layers"]:
         o, m = driver.collect_R(pid, tier)
         m["_layer"] = "R (kani on the real Features::resolve)"
